@@ -147,7 +147,7 @@ func workerMain(args []string) int {
 	sum.Next = *from
 	var ms runtime.MemStats
 	for i := *from; i < *to; i += *step {
-		if *deadline > 0 && i%16 == 0 && time.Now().Unix() > *deadline {
+		if *deadline > 0 && sum.Done%16 == 0 && time.Now().Unix() > *deadline {
 			break
 		}
 		if sum.Done%512 == 511 {
@@ -341,7 +341,7 @@ func tierFor(prop, tier string) tierCfg {
 	if tier == "thorough" {
 		return tierCfg{Runs: base * 12, BudgetS: 480}
 	}
-	return tierCfg{Runs: base, BudgetS: 60}
+	return tierCfg{Runs: base, BudgetS: 180}
 }
 
 type KnownFinding struct {
@@ -517,6 +517,17 @@ func runMain(args []string) int {
 		*work = d
 		defer os.RemoveAll(d)
 	}
+	selftest := ""
+	if *tier == "thorough" {
+		// determinism proof for this property's class under this seed: the
+		// same runs in 6 fresh processes at GOMAXPROCS 1, 4 and 16
+		if rc := selftestMain([]string{"-props", *prop, "-seed", fmt.Sprint(*seed), "-n", "500"}); rc != 0 {
+			fmt.Fprintln(os.Stderr, "HARNESS ERROR: the simulator is not deterministic on this class (this is not a property violation)")
+			return 2
+		}
+		selftest = "500 runs x 6 processes (GOMAXPROCS 1, 4, 16): identical event logs"
+	}
+
 	start := time.Now()
 	deadline := start.Unix() + tc.BudgetS
 	thorough := *tier == "thorough"
@@ -775,6 +786,14 @@ func runMain(args []string) int {
 			fmt.Printf("KNOWN-FINDING: property=%s %s [class=%s, %d histories, replay=%s]\n", *prop, kf.What, cl, total.ClassCount[cl], path)
 			continue
 		}
+		if strings.HasPrefix(cl, "harness-") {
+			// the machinery caught itself misbehaving: trouble, not a finding
+			fmt.Fprintf(os.Stderr, "HARNESS ERROR: %s (%d histories, replay=%s): %s\n", cl, total.ClassCount[cl], path, v.Detail)
+			if exit == 0 {
+				exit = 2
+			}
+			continue
+		}
 		nviol++
 		fmt.Printf("VIOLATION property=%s replay=%s\n", *prop, path)
 		fmt.Printf("  class=%s histories=%d run=%d minimised %d -> %d ops: %s\n", cl, total.ClassCount[cl], v.Run, v.OrigOps, len(h.Ops), v.Detail)
@@ -842,6 +861,9 @@ func runMain(args []string) int {
 			"minimised_violations":            minimised,
 			"event_log_digest":                fmt.Sprintf("%x", lh[:]),
 			"workers":                         W,
+			"determinism_selftest":            selftest,
+			"budget_s":                        tc.BudgetS,
+			"stopped_by_budget":               total.Done < tc.Runs,
 			"components_real":                 []string{"all of go.uber.org/dig (built from /repo with -tags verif)"},
 			"components_stubbed":              []string{"user functions (constructors, decorators, invoked functions, callbacks): simulated environment", "clock: digclock.Mock advanced by the stubs", "value-group shuffle PRNG: seeded per scope"},
 		},
